@@ -1,6 +1,7 @@
-(* Identifier escaping: statement for every table satisfying the decidable side condition, and
-   the part proved so far (by computation, over the generated tables, on a finite family of
-   identifiers covering every character class and every keyword). *)
+(* Identifier escaping: statement for every table satisfying the decidable side condition
+   (proved in ProofsRepl.v / ProofsEscapeFull.v), the instance checked by computation over the
+   generated tables on a finite family of identifiers covering every character class and every
+   keyword (kept as an independent cross-check), and the reduction to the replacement loop. *)
 From Coq Require Import ZArith List Bool.
 From Cobra.GPR Require Import Syntax Escape.
 From Cobra.Gen Require Import GprTables.
@@ -11,8 +12,11 @@ Definition escape_ok_at (T : table) (kws : list str) (P : str) (w : str) : bool 
   str_eqb (unescape_name T P (length P) (escape_word T kws P w)) w &&
   is_py_name kws (escape_word T kws P w).
 
+(* PROVED in ProofsEscapeFull.v (`escape_ok`).  `wf_prefix` (the prefix does not begin a keyword)
+   was added to the side conditions: without it the statement is false for a keyword list that
+   contains a prefixed keyword (`escape_ok_needs_wf_prefix`). *)
 Definition escape_ok_statement : Prop :=
-  forall T kws P, wf_repl T P = true -> wf_kws kws = true ->
+  forall T kws P, wf_repl T P = true -> wf_kws kws = true -> wf_prefix P kws = true ->
   forall w, id_okb T P w = true -> escape_ok_at T kws P w = true.
 
 (* all words of length <= n over an alphabet *)
